@@ -69,7 +69,7 @@ def _data_cell(rng, htype, spine, p_null=0.15, chords=True, rest_in_chord=0.03):
 
 def gen_doc(rng, *, kern_only=False, max_spines=4, splits=True, core=False, comments=True, measures=None,
             mid_signatures=True, opening_barline=None, final_barline=None, chords=True, free_headers=False,
-            hidden_barlines=False, force_clef=False, plain_acc=False, rest_in_chord=0.03):
+            hidden_barlines=False, force_clef=False, plain_acc=False, rest_in_chord=0.03, clef_in_split=0.0, nested=0.5):
     """core=True: signatures only before the first measure, splits re-joined before the next barline (C08's core)"""
     g = GenDoc()
     tokens.PLAIN_ACC = plain_acc
@@ -103,7 +103,10 @@ def gen_doc(rng, *, kern_only=False, max_spines=4, splits=True, core=False, comm
 
     def interp_row(choices, p_kern=0.9, p_other=0.3):
         tok = rng.choice(choices)
-        row(lambda i, sp, ht: Cell(tok if rng.random() < (p_kern if is_kernlike(ht) else p_other) else '*',
+        per_cell = rng.random() < 0.4      # different tokens in different (sub-)spines, e.g. a clef change in one sub-spine only
+        if per_cell:
+            p_kern = 0.6
+        row(lambda i, sp, ht: Cell((rng.choice(choices) if per_cell else tok) if rng.random() < (p_kern if is_kernlike(ht) else p_other) else '*',
                                    'interp', sp, ht))
 
     def signature_rows(uniform):
@@ -132,7 +135,6 @@ def gen_doc(rng, *, kern_only=False, max_spines=4, splits=True, core=False, comm
     final = final_barline if final_barline is not None else rng.random() < 0.6
     number = 1
     started = False   # a barline or data row has been written (core documents do not split before that)
-    in_split = None   # index of the first sub-path of a split
 
     def barline():
         nonlocal number
@@ -145,15 +147,18 @@ def gen_doc(rng, *, kern_only=False, max_spines=4, splits=True, core=False, comm
         number += 1
         row(lambda i, sp, ht: Cell(t, 'barline', sp, ht))
 
+    def join_points():
+        """indices k such that paths k and k+1 are sub-spines of the same spine (they can be joined)"""
+        return [k for k in range(len(paths) - 1) if paths[k][0] == paths[k + 1][0]]
+
     def join_split():
-        nonlocal in_split, paths
-        k = in_split
+        nonlocal paths
+        k = rng.choice(join_points())
         cells = []
         for i, (sp, ht) in enumerate(paths):
             cells.append(Cell('*v' if i in (k, k + 1) else '*', 'spineop' if i in (k, k + 1) else 'interp', sp, ht))
         g.lines.append(('row', cells))
         paths = paths[:k + 1] + paths[k + 2:]
-        in_split = None
         g.flags.add('join')
 
     for m in range(nmeasures):
@@ -179,28 +184,38 @@ def gen_doc(rng, *, kern_only=False, max_spines=4, splits=True, core=False, comm
                 interp_row(rng.choice([CLEFS, KEYSIGS, METERS, TANDEM]))
                 g.flags.add('mid-signature')
                 continue
-            if splits and in_split is None and r < 0.34 and len(paths) < 6 and (started or not core):
+            can_split = splits and len(paths) < 6 and (started or not core) and \
+                (not join_points() or (rng.random() < nested and max(sum(1 for q in paths if q[0] == p[0]) for p in paths) < 3))
+            if can_split and (r < 0.34 or (join_points() and r < 0.6)):
                 cands = [i for i, (sp, ht) in enumerate(paths) if ht == '**kern']
                 if cands:
                     k = rng.choice(cands)
+                    if join_points():
+                        g.flags.add('nested-split')
                     g.lines.append(('row', [Cell('*^' if i == k else '*', 'spineop' if i == k else 'interp', sp, ht)
                                             for i, (sp, ht) in enumerate(paths)]))
                     paths = paths[:k + 1] + [paths[k]] + paths[k + 1:]
-                    in_split = k
                     g.flags.add('split')
                     continue
-            if in_split is not None and r < 0.45:
+            if join_points() and clef_in_split and rng.random() < clef_in_split:
+                # a clef change in ONE sub-spine only: its sibling keeps the clef in force before the split
+                subs = [i for i in range(len(paths)) if sum(1 for q in paths if q[0] == paths[i][0]) > 1]
+                k = rng.choice(subs)
+                row(lambda i, sp, ht: Cell(rng.choice(CLEFS) if i == k else '*', 'interp', sp, ht))
+                g.flags.add('clef-in-split')
+                continue
+            if join_points() and r < 0.45:
                 join_split()
                 continue
             row(lambda i, sp, ht: _data_cell(rng, ht, sp, chords=chords, rest_in_chord=rest_in_chord))
             started = True
-        if in_split is not None and (core or rng.random() < 0.7):
+        while join_points() and (core or rng.random() < 0.7):
             join_split()
     if final:
         t = rng.choice(['=', '==', '=' + str(number), '==|!', '=||'])
         row(lambda i, sp, ht: Cell(t, 'barline', sp, ht))
         g.flags.add('final-barline')
-    if in_split is not None and rng.random() < 0.5:
+    while join_points() and rng.random() < 0.5:
         join_split()
     if comments and rng.random() < 0.15:
         g.lines.append(('global', '!!!END: last'))
